@@ -1,7 +1,7 @@
 import Infretis.Lemmas.PermPipe
 import Infretis.Lemmas.PermSorted
 import Infretis.Lemmas.PermEqual
--- import Infretis.Lemmas.PermBlocks
+import Infretis.Lemmas.PermBlocks
 /-!
 # The pipeline theorem: `inf_retis` returns the embedded permanent ratios (C02)
 -/
